@@ -268,3 +268,39 @@ Qed.
 Theorem pin_next_local s e j :
   nth_error (core_next s e) j = option_map (fun ps => pin_next ps (pin_slice e j)) (nth_error s j).
 Proof. apply core_next_nth. Qed.
+
+(* ------------------------------------------------------------------ the Output register on its own *)
+
+Lemma oreg_next_from_nth : forall s k i j,
+  nth_error (oreg_next_from k s i) j =
+  option_map (fun b => outbit_next b (Z.testbit (q_set i) (Z.of_nat (k + j))) (Z.testbit (q_clr i) (Z.of_nat (k + j)))
+                                   (q_wstb i) (Z.testbit (q_wdata i) (Z.of_nat (k + j))))
+             (nth_error s j).
+Proof.
+  induction s as [|b s IH]; intros k i j; simpl.
+  - destruct j; reflexivity.
+  - destruct j as [|j]; simpl.
+    + rewrite Nat.add_0_r. reflexivity.
+    + rewrite IH. replace (S k + j)%nat with (k + S j)%nat by lia. reflexivity.
+Qed.
+
+(* Output field j with free set / clr inputs: exactly one of set, clr decides and beats a register write in the
+   same cycle; neither or both leave the bit to the write, if any; each field looks at its own bits only *)
+Theorem output_field_priority s i j b : nth_error s j = Some b ->
+  nth_error (oreg_next s i) j =
+  Some (let st := Z.testbit (q_set i) (Z.of_nat j) in
+        let cl := Z.testbit (q_clr i) (Z.of_nat j) in
+        if st && negb cl then true
+        else if cl && negb st then false
+        else if q_wstb i then Z.testbit (q_wdata i) (Z.of_nat j)
+        else b).
+Proof.
+  intros H. unfold oreg_next. rewrite oreg_next_from_nth, H. cbn [option_map Nat.add]. f_equal.
+  unfold outbit_next. cbv zeta.
+  destruct (Z.testbit (q_set i) (Z.of_nat j)), (Z.testbit (q_clr i) (Z.of_nat j)); reflexivity.
+Qed.
+
+(* inside the peripheral the very same function steps pin j's output bit *)
+Lemma pin_next_out ps pi :
+  ps_out (pin_next ps pi) = outbit_next (ps_out ps) (out_set pi) (out_clr pi) (pi_out_wstb pi) (pi_out_wdata pi).
+Proof. reflexivity. Qed.
